@@ -23,7 +23,7 @@ func typedRewrite(repo, out string) (map[string]string, int, []gap, error) {
 		Dir:  repo,
 		Env:  append(os.Environ(), "GOFLAGS=-mod=mod", "GOPROXY=off", "GOSUMDB=off", "GOTOOLCHAIN=local"),
 	}
-	pkgs, err := packages.Load(cfg, "./lib/file", "./lib/query", "./lib/action")
+	pkgs, err := packages.Load(cfg, "./lib/file", "./lib/query", "./lib/action", "./lib/value")
 	if err != nil {
 		return nil, 0, nil, err
 	}
@@ -60,7 +60,7 @@ func typedRewrite(repo, out string) (map[string]string, int, []gap, error) {
 			overlay[path] = dst
 		}
 	}
-	for kind, min := range map[string]int{"fs": 25, "go": 5, "lock": 30, "maprange": 15, "wg": 3, "point": 2} {
+	for kind, min := range map[string]int{"fs": 25, "go": 5, "lock": 30, "maprange": 15, "wg": 3, "point": 3} {
 		if counts[kind] < min {
 			gaps = append(gaps, gap{"(all)", fmt.Sprintf("only %d rewrites of kind %s (expected >= %d)", counts[kind], kind, min)})
 		}
@@ -241,6 +241,9 @@ func (rw *rewriter) file(f *ast.File) {
 		case rw.rel == "lib/query/processor.go" && fd.Name.Name == "ExecuteStatement":
 			stmt = &ast.ExprStmt{X: shimCall("vfs", "Point", &ast.BasicLit{Kind: token.STRING, Value: `"stmt"`})}
 			rw.hit("point", "vfs")
+		case rw.rel == "lib/value/pool.go" && fd.Name.Name == "Discard" && fd.Recv == nil && len(fd.Type.Params.List) == 1 && len(fd.Type.Params.List[0].Names) == 1:
+			stmt = &ast.ExprStmt{X: shimCall("vrt", "OnDiscard", ast.NewIdent(fd.Type.Params.List[0].Names[0].Name))}
+			rw.hit("point", "vrt")
 		case rw.rel == "lib/query/goroutine_manager.go" && fd.Name.Name == "HasError" && fd.Recv != nil:
 			stmt = &ast.ExprStmt{X: shimCall("vrt", "Point", &ast.BasicLit{Kind: token.STRING, Value: `"iter"`})}
 			rw.hit("point", "vrt")
